@@ -146,13 +146,13 @@ def goCapitalCamel (t : Text) : R :=
   | .error s => .error s
   | .ok ps => identR ps.flatten
 
-/-- golang `_lower_camel_case`: empty later parts reach the `@require` of
-`_capitalize_or_leave_abbreviation` (a crash site, e.g. for `a__b`). -/
+/-- golang `_lower_camel_case`: empty later parts (`a__b`, a trailing underscore) are skipped,
+as in `capital_camel_case` (since the repair of the `IndexError` on `class_`). -/
 def goLowerCamel (t : Text) : R :=
   match parts t with
   | [] => .error "AssertionError@golang._lower_camel_case"
   | p :: ps =>
-    match mapR goCapOrLeave ps with
+    match mapR goCapOrLeave (ps.filter (fun q => q.length > 0)) with
     | .error s => .error s
     | .ok qs => identR (lower p ++ qs.flatten)
 
